@@ -519,6 +519,7 @@ class Contract:
     setup: Optional[Callable] = None  # setup(engine, state): bind extra environment entries after the inputs exist
     drop_decorators: bool = True
     float_as_real: bool = False
+    bv_checked: bool = False  # arithmetic on 64-bit vectors standing for Python ints emits no-overflow obligations
     opaque_methods: bool = False  # unmodelled methods of opaque (U) receivers are recorded as unmodelled calls instead of Undecided
     strings: bool = False  # f-strings / str() / + on strings build z3 String terms (str of an int is the uninterpreted str_int)
     float_model: str = 'exact'  # 'exact': float ops are real ops (assumption recorded by the contract module);
@@ -1053,6 +1054,8 @@ class Engine:
     # ---- assignment
     def assign(self, target, v, st: State):
         if isinstance(target, ast.Name):
+            if self.c.types.get(target.id) == 'bv64' and isinstance(v, (int, bool)):
+                v = to_z3(v, 'bv64')  # a local declared as a machine-width integer
             if isinstance(v, SList) and v.et is None and target.id in self.c.types:
                 t = parse_type(self.c.types[target.id])
                 if isinstance(t, tuple) and t[0] == 'list':
@@ -1499,7 +1502,10 @@ class Engine:
         if isinstance(op, (ast.Eq, ast.NotEq)):
             r = self.equal(a, b)
             return r if isinstance(op, ast.Eq) else z3.Not(r)
-        az, bz = self.num(a), self.num(b)
+        if (isinstance(a, z3.ExprRef) and z3.is_bv(a)) or (isinstance(b, z3.ExprRef) and z3.is_bv(b)):
+            az, bz = to_z3(a, 'bv64'), to_z3(b, 'bv64')  # signed comparison (z3's < <= > >= on bit-vectors are signed)
+        else:
+            az, bz = self.num(a), self.num(b)
         if isinstance(op, ast.Lt):
             return az < bz
         if isinstance(op, ast.LtE):
@@ -1632,9 +1638,30 @@ class Engine:
                 ab = z3.If(a, z3.BitVecVal(1, 64), z3.BitVecVal(0, 64))
             if isinstance(b, z3.ExprRef) and z3.is_bool(b):
                 bb = z3.If(b, z3.BitVecVal(1, 64), z3.BitVecVal(0, 64))
-            ops = {ast.BitOr: lambda: ab | bb, ast.BitAnd: lambda: ab & bb, ast.BitXor: lambda: ab ^ bb, ast.LShift: lambda: ab << bb, ast.RShift: lambda: z3.LShR(ab, bb), ast.Add: lambda: ab + bb, ast.Sub: lambda: ab - bb}
+            if self.c.bv_checked and not getattr(self, 'in_spec', False):
+                # Python ints are unbounded: a 64-bit signed vector models them only while nothing overflows
+                ln = getattr(node, 'lineno', 0)
+                if isinstance(op, ast.Add):
+                    self.oblige(st, 'safety/int64-add-no-overflow@L%d' % ln, z3.And(z3.BVAddNoOverflow(ab, bb, True), z3.BVAddNoUnderflow(ab, bb)), kind='safety')
+                elif isinstance(op, ast.Sub):
+                    self.oblige(st, 'safety/int64-sub-no-overflow@L%d' % ln, z3.And(z3.BVSubNoOverflow(ab, bb), z3.BVSubNoUnderflow(ab, bb, True)), kind='safety')
+                elif isinstance(op, ast.Mult):
+                    self.oblige(st, 'safety/int64-mul-no-overflow@L%d' % ln, z3.And(z3.BVMulNoOverflow(ab, bb, True), z3.BVMulNoUnderflow(ab, bb)), kind='safety')
+                elif isinstance(op, ast.LShift):
+                    self.oblige(st, 'safety/int64-shift-no-overflow@L%d' % ln, z3.And(z3.ULT(bb, 64), ((ab << bb) >> bb) == ab), kind='safety')
+                elif isinstance(op, ast.RShift):
+                    self.oblige(st, 'safety/int64-shift-count-in-range@L%d' % ln, z3.ULT(bb, 64), kind='safety')
+            if isinstance(op, (ast.FloorDiv, ast.Mod)):
+                if not getattr(self, 'in_spec', False):
+                    self.oblige(st, 'safety/divisor-positive@L%d' % getattr(node, 'lineno', 0), bb > 0, kind='safety')
+                # floor semantics for a positive divisor: truncating signed division, corrected for negative numerators
+                qt = ab / bb
+                rt = z3.SRem(ab, bb)
+                q = z3.If(z3.And(ab < 0, rt != 0), qt - 1, qt)
+                return q if isinstance(op, ast.FloorDiv) else ab - q * bb
+            ops = {ast.BitOr: lambda: ab | bb, ast.BitAnd: lambda: ab & bb, ast.BitXor: lambda: ab ^ bb, ast.LShift: lambda: ab << bb, ast.RShift: lambda: ab >> bb, ast.Add: lambda: ab + bb, ast.Sub: lambda: ab - bb, ast.Mult: lambda: ab * bb}
             if type(op) in ops:
-                return ops[type(op)]()
+                return ops[type(op)]()  # `>>` on z3 bit-vectors is the arithmetic shift, as on Python ints
             raise Undecided('operator %s on bit-vectors' % type(op).__name__)
         az, bz = self.num(a), self.num(b)
         ka, kb = self.numkind(a), self.numkind(b)
@@ -1819,6 +1846,14 @@ class Engine:
                 if not -len(cont) <= idx < len(cont):
                     raise PyRaise(SExc('IndexError'))
                 return cont[idx]
+            if isinstance(idx, z3.ExprRef) and z3.is_bv(idx) and cont and all(isinstance(x, int) and not isinstance(x, bool) for x in cont):
+                # a constant table indexed by a machine-width integer: if-then-else chain (negative indices are not modelled)
+                if not getattr(self, 'in_spec', False) and node is not None:
+                    self.oblige(st, 'safety/index-in-range@L%d' % getattr(node, 'lineno', 0), z3.And(idx >= 0, idx < len(cont)), kind='safety')
+                r = z3.BitVecVal(cont[-1], idx.size())
+                for i_ in range(len(cont) - 2, -1, -1):
+                    r = z3.If(idx == i_, z3.BitVecVal(cont[i_], idx.size()), r)
+                return r
             raise Undecided('symbolic index into tuple')
         if isinstance(cont, SList):
             i = to_z3(idx, 'int')
@@ -2047,6 +2082,8 @@ class Engine:
             return func.fn(self, st, args, kw, node)
         if isinstance(func, tuple) and func and func[0] == 'boundmethod':
             return self.call_method(func[1], func[2], node, st)
+        if isinstance(func, tuple) and func and func[0] == 'localdef':
+            return self.call_localdef(func[1], node, st)
         if isinstance(func, tuple) and func and func[0] == 'lambda':
             lam, env = func[1], func[2]
             s2 = State(dict(env), st.pc)
@@ -2056,6 +2093,53 @@ class Engine:
         if isinstance(func, SDotted):
             return self.call_builtin(func.name, node, st)
         raise Undecided('call of %r' % (func,))
+
+    def call_localdef(self, fn, node, st):
+        """call of a nested `def`: its real body is executed in a child state that sees the enclosing variables; every outcome
+        comes back as a Fork alternative.  Nested functions that rebind enclosing variables (nonlocal) are outside the subset."""
+        if isinstance(fn, ast.AsyncFunctionDef) or any(isinstance(n, (ast.Nonlocal, ast.Global, ast.Yield, ast.YieldFrom)) for n in ast.walk(fn)):
+            raise Undecided('nested function %s uses nonlocal/global/yield or is a coroutine' % fn.name)
+        a = fn.args
+        if a.vararg or a.kwarg or a.kwonlyargs:
+            raise Undecided('nested function %s with *args/**kwargs' % fn.name)
+        names = [x.arg for x in a.posonlyargs + a.args]
+        child = State(dict(st.env), list(st.pc))
+        child.trace = list(st.trace)
+        vals = [self.ev(x, st) for x in node.args]
+        kws = {k.arg: self.ev(k.value, st) for k in node.keywords}
+        defaults = a.defaults
+        for n_, d in zip(names[len(names) - len(defaults):], defaults):
+            child.env[n_] = self.ev(d, st)
+        for n_, v in zip(names, vals):
+            child.env[n_] = v
+        for k_, v in kws.items():
+            child.env[k_] = v
+        if any(n_ not in child.env for n_ in names):
+            raise Undecided('call of nested function %s: missing argument' % fn.name)
+        depth = getattr(self, '_ld_depth', 0)
+        if depth > 12:
+            raise Undecided('nested function recursion')
+        self._ld_depth = depth + 1
+        try:
+            outs = self.exec_block(fn.body, child)
+        finally:
+            self._ld_depth = depth
+        base = len(st.pc)
+        alts = []
+        for i, (s2, oc) in enumerate(outs):
+            extra = list(s2.pc[base:])
+            cond = z3.And(*extra) if extra else None
+            if oc[0] == 'raise':
+                alts.append(('%s-raises%d' % (fn.name, i), cond, 'raise', oc[1], None))
+            elif oc[0] in ('return', 'next'):
+                alts.append(('%s-returns%d' % (fn.name, i), cond, 'value', oc[1] if oc[0] == 'return' else None, None))
+            else:
+                raise Undecided('%s escaping nested function %s' % (oc[0], fn.name))
+        if len(alts) == 1 and alts[0][1] is None:
+            if alts[0][2] == 'raise':
+                raise PyRaise(alts[0][3])
+            return alts[0][3]
+        raise Fork(node, alts)
 
     def ev_lenient(self, a, st):
         if isinstance(a, ast.Starred):
